@@ -651,6 +651,12 @@ class Server:
             _register(self)
             try:
                 self._wait_port(start_timeout)
+                # the port may have been opened by SOMEONE ELSE's listener (another test server taking the port between
+                # free_port() and our bind): our process then dies on `bind: Address already in use` a moment later.
+                # That is a collision of the harness, not a behaviour of trRouting: take another port.
+                time.sleep(0.2)
+                if self.proc.poll() is not None and "Address already in use" in self.log_tail():
+                    raise RuntimeError("port collision: Address already in use")
                 return
             except RuntimeError as e:
                 last_err = e
